@@ -35,6 +35,13 @@ def der_mutations(base, rnd, subs):
     return out
 
 
+def outcome_bytes(f):
+    try:
+        return {"ok": True, "v": b2l(f())}
+    except BaseException as e:  # noqa
+        return {"ok": False, "exc": type(e).__name__}
+
+
 def run(ctx):
     ecdsa = core.import_ecdsa()
     from ecdsa import util
@@ -139,6 +146,31 @@ def run(ctx):
                 add_helpers(n, v)
                 add_enc(n, v, v)
                 add_enc(n, 1, v)
+    # beyond the listed property: other helpers and curve metadata (same specification module)
+    from ecdsa import ecdsa as ecmod, curves as curvesmod
+    for v in sorted({0, 1, 127, 128, 255, 256, 65535, 65536, 2 ** 64, 2 ** 521 - 1} | {rnd.randrange(2 ** 200) for _ in range(5)}):
+        o = outcome_bytes(lambda: ecmod.int_to_string(v))
+        ev({"op": "i2s", "v": n2l(v), "out": o}, "int_to_string(%d)" % v)
+        raw = v.to_bytes((v.bit_length() + 7) // 8 + 1, "big")
+        try:
+            o2 = {"ok": True, "v": n2l(ecmod.string_to_int(raw))}
+        except BaseException as e:  # noqa
+            o2 = {"ok": False, "exc": type(e).__name__}
+        ev({"op": "s2i", "inp": b2l(raw), "out": o2}, "string_to_int(%r)" % raw[:12])
+        for n in (257, orders[0], orders[4]):
+            if v >= 256 ** ((len("%x" % n) + 1) // 2):
+                continue        # number_to_string_crop is only used for values that fit the order's byte length
+            ev({"op": "crop", "v": n2l(v), "n": n2l(n), "out": outcome_bytes(lambda: util.number_to_string_crop(v, n))},
+               "number_to_string_crop(%d, %d)" % (v, n))
+    for data in (b"\x00", b"\x80", b"\x01\xff", bytes(rnd.randrange(256) for _ in range(9))):
+        try:
+            o = {"ok": True, "v": [int(ch) for ch in util.entropy_to_bits(data)]}
+        except BaseException as e:  # noqa
+            o = {"ok": False, "exc": type(e).__name__}
+        ev({"op": "e2b", "inp": b2l(data), "out": o}, "entropy_to_bits(%r)" % data)
+    for c in list(curvesmod.curves):
+        ev({"op": "meta", "n": n2l(c.order), "p": n2l(c.curve.p()), "baselen": c.baselen, "vklen": c.verifying_key_length,
+            "siglen": c.signature_length}, "Curve metadata of %s" % c.name)
     # decoder inputs: every byte string of length <= 2 through each decoder, several orders
     short = [b""] + [bytes([a]) for a in range(256)] + [bytes([a, b]) for a in range(256) for b in range(256)]
     for n in (2, 255) if quick else (2, 255, 256, 65537):
@@ -171,6 +203,10 @@ def run(ctx):
     ctx.add_stats(st)
     ctx.traces += len(events)
     for ix, clause in bad:
+        if events[ix]["op"] in ("i2s", "s2i", "crop", "e2b", "meta"):
+            # behaviour beyond the listed property: reported, never an alarm of C12
+            ctx.note("beyond-property helper deviates from SigCodec.tla: %s -> %s (%s)" % (meta[ix][:160], events[ix].get("out"), clause))
+            continue
         ctx.violation("%s -> %r contradicts SigCodec.tla [clause %s]"
                       % (meta[ix][:300], core.compact(events[ix].get("out", events[ix].get("len"))), clause),
                       {"call": meta[ix], "event": core.compact(events[ix])})
